@@ -80,7 +80,7 @@ def run(rep):
     traces = sweep.record_real_runs(rep.seed, 24 if rep.tier == "quick" else 120)
     # binding self-test: a recorded execution with two output slots swapped / a call repeated must be rejected
     import copy
-    bad = copy.deepcopy([t for t in traces if len(t["out"]) >= 3][:2])
+    bad = copy.deepcopy([t for t in traces if len(t["out"]) >= 3 and not t.get("error")][:2])
     bad[0]["out"][0], bad[0]["out"][1] = bad[0]["out"][1], bad[0]["out"][0]
     bad[1]["calls"] = bad[1]["calls"][:-1] + [bad[1]["calls"][0]]
     rej_bad, _ = sweep.validate_traces(rep, bad, name="SweepTraceSelf")
@@ -93,8 +93,8 @@ def run(rep):
     rep.extra["real_nondeterminism_traces"] = dict(recorded=len(traces), accepted=len(traces) - len(rejected),
                                                    kinds=sorted({t["how"] for t in traces}))
     for i, t in rejected:
-        rep.add_violation(dict(kind="trace", trace=t), "recorded execution (%s, shuffle=%s) is not a behaviour of Sweep.tla: calls=%r out=%r" % (
-            t["how"], t["shuffle"], t["calls"], t["out"]), key=dict(kind="trace", how=t["how"]))
+        rep.add_violation(dict(kind="trace", trace=t), "recorded execution (%s, shuffle=%s, a pool owned by the caller and used for several sweeps) is not a behaviour of Sweep.tla: calls=%r out=%r%s" % (
+            t["how"], t["shuffle"], t["calls"], t["out"], (" - the sweep raised " + t["error"]) if t.get("error") else ""), key=dict(kind="trace", how=t["how"]))
 
 
 def replay(rep, saved):
